@@ -1093,6 +1093,11 @@ func (cv *VartypeCheck) RPkgVer() {
 // PackageDir refers from one package directory to another package
 // directory, e.g. ../../category/pkgbase.
 func (cv *VartypeCheck) PackageDir() {
+	if cv.Value == "" {
+		cv.Errorf("The package directory must not be empty.")
+		return
+	}
+
 	if NewPath(cv.Value).IsAbs() {
 		cv.Errorf("The path %q must be relative.", cv.Value)
 		return
